@@ -388,6 +388,70 @@ def write_evidence(mod, tier, seed_value, coverage, wall, violations, out_dir=No
     (d / f"{mod.ID}.json").write_text(json.dumps(ev, indent=1) + "\n")
 
 
+def _optimized_rerun(mod, tier, only):
+    """
+    The generated sub-checks once more, at a twentieth of their budget, in a child interpreter running in optimised
+    mode (PYTHONOPTIMIZE=1, i.e. `python -O`: assert statements - and anything done inside them - are compiled away).
+    The interpreter mode is a configuration of every property's quantifier that costs seconds to cover. A child that
+    cannot be run or ends inconclusively is recorded in the evidence and never fails the check by itself.
+    """
+    import shutil
+    import subprocess
+    import tempfile
+
+    evd = tempfile.mkdtemp(prefix="vf-pyO-", dir=os.environ.get("VERIF_SCRATCH", "/var/tmp"))
+    scale = float(os.environ.get("VERIF_BUDGET_SCALE", "1")) * 0.05
+    env = dict(os.environ, VERIF_INNER="1", PYTHONOPTIMIZE="1", VERIF_BUDGET_SCALE=str(scale), VERIF_EVIDENCE_DIR=evd,
+               VERIF_TIER=tier, PYTHONHASHSEED="0")
+    cmd = [sys.executable, str(VERIF_DIR / "check"), mod.ID, "--tier", tier]
+    if only:
+        cmd += ["--only", ",".join(sorted(only))]
+    t0 = time.time()
+    out = {"mode": "PYTHONOPTIMIZE=1", "budget_scale": scale}
+    try:
+        r = subprocess.run(cmd, env=env, capture_output=True, text=True, timeout=float(os.environ.get("VERIF_WALL_CAP", "1500" if tier == "quick" else "14400")))
+    except Exception as e:  # noqa: BLE001
+        out["status"] = f"not run: {type(e).__name__}"
+        shutil.rmtree(evd, ignore_errors=True)
+        return out
+    out["wall_s"] = round(time.time() - t0, 1)
+    out["exit"] = r.returncode
+    try:
+        ev = json.loads((Path(evd) / f"{mod.ID}.json").read_text())
+        out["evaluations"] = ev["coverage"]["evaluations"]
+        out["distinct_nontrivial"] = ev["coverage"]["distinct_nontrivial"]
+        out["sub_checks"] = {k: v["evaluations"] for k, v in ev["coverage"].get("sub_checks", {}).items()}
+    except Exception:  # noqa: BLE001
+        pass
+    if r.returncode == 1:
+        msgs = {}
+        for line in r.stdout.splitlines():
+            if line.startswith("violation in "):
+                name, _, msg = line[len("violation in "):].partition(": ")
+                msgs[name] = msg
+        vio = []
+        for f in sorted((Path(evd) / "replays").glob("*.json")) if (Path(evd) / "replays").is_dir() else []:
+            try:
+                name = json.loads(f.read_text()).get("sub", "?")
+            except Exception:  # noqa: BLE001
+                name = "?"
+            keep = Path(tempfile.mkdtemp(prefix="vf-pyO-replay-", dir=os.environ.get("VERIF_SCRATCH", "/var/tmp"))) / f.name
+            shutil.copy(f, keep)
+            vio.append((name, msgs.get(name, "violation in optimised mode"), str(keep)))
+        if vio:
+            out["violations"] = vio
+            out["status"] = "violation"
+        else:
+            out["status"] = "inconclusive (exit 1 without a replay file)"
+    elif r.returncode == 0:
+        out["status"] = "held"
+    else:
+        out["status"] = "inconclusive"
+        out["tail"] = (r.stdout + r.stderr)[-300:]
+    shutil.rmtree(evd, ignore_errors=True)
+    return out
+
+
 def run_property(mod, tier, only=None):
     t0 = time.time()
     base_seed = int(os.environ.get("VERIF_SEED", "1"))
@@ -403,7 +467,8 @@ def run_property(mod, tier, only=None):
     # 1. committed replays (seconds-long regression tier)
     rdir = VERIF_DIR / "replays" / mod.ID
     replayed = 0
-    if rdir.is_dir():
+    inner = bool(os.environ.get("VERIF_INNER"))
+    if rdir.is_dir() and not inner:
         for f in sorted(rdir.glob("*.json")):
             if only and json.loads(f.read_text()).get("sub") not in only:
                 continue
@@ -419,6 +484,8 @@ def run_property(mod, tier, only=None):
 
     # 2. generated search
     subs = [s for s in mod.SUBS if not only or s.name in only]
+    if inner:
+        subs = [s for s in subs if s.kind == "hyp"]
     tasks = []
     for s in subs:
         if s.budget.get(tier, 1) == 0:
@@ -440,6 +507,9 @@ def run_property(mod, tier, only=None):
                 return 2
 
     _cleanup_scratch()
+    optimized = None
+    if not inner and getattr(mod, "OPTIMIZED_RERUN", True) and any(s.kind == "hyp" for s in subs) and not os.environ.get("VERIF_NO_OPTIMIZED"):
+        optimized = _optimized_rerun(mod, tier, only)
     per_sub = {}
     for r in results:
         if "harness_error" in r:
@@ -479,6 +549,20 @@ def run_property(mod, tier, only=None):
             print(f"violation in {name}: {msg}")
             violations.append((name, str(path)))
 
+    if optimized and optimized.get("violations"):
+        rp_dir.mkdir(parents=True, exist_ok=True)
+        for name, msg, src in optimized.pop("violations"):
+            try:
+                data = json.loads(Path(src).read_text())
+            except Exception:  # noqa: BLE001
+                data = {"property": mod.ID, "sub": name, "message": msg, "case": None}
+            data["python_optimize"] = True
+            h = hashlib.sha1(json.dumps(data.get("case"), sort_keys=True).encode()).hexdigest()[:10]
+            path = rp_dir / f"{mod.ID}-{name}-pyO-{h}.json"
+            path.write_text(json.dumps(data, indent=1) + "\n")
+            print(f"violation in {name} (interpreter in optimised mode, PYTHONOPTIMIZE=1): {msg}")
+            violations.append((name + ":optimized", str(path)))
+
     samples = []
     sub_cov = {}
     exhaustive_all = bool(subs) and all(s.exhaustive for s in subs)
@@ -508,6 +592,8 @@ def run_property(mod, tier, only=None):
         "workers": NPROC,
         "code_under_test": str(repo_dir()),
     }
+    if optimized is not None:
+        coverage["optimized_interpreter_rerun"] = optimized
     wall = time.time() - t0
     write_evidence(mod, tier, base_seed, coverage, wall, len(violations))
 
